@@ -13,6 +13,6 @@ Given2 == {<<>>, <<"s1">>, <<"s2", "s1">>}
 Elem3 == [s \in S3 |-> IF s = "s1" THEN {"H"} ELSE IF s = "s2" THEN {"H", "N"} ELSE {"O"}]
 Elem2 == [s \in S2 |-> IF s = "s1" THEN {"H"} ELSE {"H", "N"}]
 \* history and its length are not part of the explored state
-View == <<alive, want, owner, cell, store, cache>>
-ViewDepth == <<alive, want, owner, cell, store, cache, Len(h)>>
+View == <<alive, want, owner, last, cell, store, cache>>
+ViewDepth == <<alive, want, owner, last, cell, store, cache, Len(h)>>
 =============================================================================
